@@ -54,5 +54,11 @@ CHECKS = {
   "text": "Proved (deductive): after every sequence of <=3 public mutators (P scalar/vector/None, set_precoders F|full_F[,P], set_receive_filters W|W_H, randomizeF), reading every derived quantity after each step, full_F, W/W_H, full_W_H, full_W, Ns and P agree with the CURRENT precoders, filters and power (exact polynomial identities on symbolic complex matrices); unit-norm precoders; P setter validation. The optimisation claims - solving completes, closed form nulls cross interference, alternating-min / min-leakage never increase leakage per iteration, MMSE meets the power constraint, the full filters invert the direct channel - are theorems about eigen-subspaces and a Newton search that no contract within the solver's reach decides: they are bounded run-time contract checks on the real solvers (stated bound, never counted as proved), which is why the level is 'other'. Three known findings (min-leakage / max-SINR with 2 streams, closed form without noise).",
   "note": "np.linalg.solve contract assumed (closed-form adjugate model); structure configuration-concrete in the invariant proof; iterative solvers only bounded (K=3, antennas 2..4, streams 1..2, powers incl. 1e-4..230); convergence is liveness, outside contracts.",
  },
+ "C05": {
+  "category": "proof",
+  "technique": "contract-based deductive verification: real simulate() symbolically executed with the two user hooks as oracles (abstract callee contracts), every skip / stop pattern enumerated by the path explorer, merged values compared as ring identities; complete enumeration of the lookup index space; bounded native runs",
+  "text": "simulate() of the real runner is symbolically executed with _run_simulation and _keep_going replaced by oracle contracts (raise SkipThisOne or return a fresh symbolic result; arbitrary boolean); every oracle pattern is explored for rep_max 1..3, up to 2 skips per variation and grids with 0..2 unpacked parameters. On every path the variation order, repetition counts, stop behaviour, stored sums (symbolic identities) and skipped counts satisfy the contract, and SkipThisOne never escapes. get_pack_indexes / get_result_values_list / get_unpacked_params_list are decided by complete enumeration over all grids with 0..3 unpacked parameters of lengths 1..3 and all fixed-value subsets.",
+  "note": "Bounded in rep_max, skips and grid size for the symbolic runs (values symbolic, all patterns); progress bars/timing/option parsing and the concrete parameter-grid code are executed natively; liveness when every repetition skips is outside contracts.",
+ },
 }
 NOT_APPLICABLE = {}
